@@ -68,6 +68,26 @@ def gen_random(r, ntables, nreq):
             ty, code, mid, token, opts, payload, mcast, tags = G.gen_request(r, t)
             st = {"t": t, "hact": hact, "req": (ty, code, mid, token, opts, payload), "mcast": mcast,
                   "tags": tags, "kind": "random"}
+            if hact.endswith("/A") or r.random() < 0.04:
+                # the same peer again: a repetition (same token, same or new id, same or other
+                # type) and / or an unrelated request
+                more = []
+                for _ in range(r.choice([1, 1, 2])):
+                    x = r.random()
+                    if x < 0.6:
+                        more.append((r.choice([ty, ty, 0, 1]), code, r.choice([mid, mid, (mid + 1) & 0xffff]),
+                                     token, opts, payload))
+                    else:
+                        ty2, code2, mid2, token2, opts2, payload2, _, _ = G.gen_request(r, t)
+                        more.append((ty2, code2, mid2, r.choice([token, token2]), opts2, payload2))
+                # Empty messages (pings) are left out of sequences: the Reset to a ping is rate
+                # limited per session (last_tx_rst), state this model does not carry
+                # ... nor are CON responses and the proxy resource's separate responses
+                # (last_con_mid duplicate detection, NSTART): sequences are requests to
+                # tables without proxy resource
+                if t["prx"] is None and all(1 <= m[1] < 32 for m in [(ty, code)] + more):
+                    st["more"] = more
+                    st["tags"] = tags + ["sequence"]
             out.append(st)
     return out
 
@@ -139,6 +159,49 @@ def sweeps(tier):
                         for b2 in (False, True):
                             o = [(G.URI_PATH, path), (G.OBSERVE, ov)] + extra + ([(G.BLOCK2, b"\x06")] if b2 else [])
                             add(TO, hact, (ty, code, 21, b"\x0a\x0b", o, b""), False, "sweep-observe")
+    # a handler that defers its answer (coap_register_async): repetitions of the request while
+    # the separate response is pending are absorbed (CON: Empty ACK again, NON: nothing)
+    TA = {"mpr": 0, "known": [], "res": [(b"a", 127, 0, 0), (b"b", 127, 0, 1)], "unk": (127, 0), "prx": None}
+    for ty1 in (0, 1):
+        for ty2 in (0, 1):
+            for code in (1, 3):
+                for tok2 in (b"\x31", b"\x32", b""):
+                    for mid2 in (7, 8):
+                        for p2 in (b"a", b"b", b"zz"):
+                            for ty3 in (None, 0, 1):
+                                for mc in ((False, True) if ty1 == 1 and ty2 == 1 and ty3 in (None, 1) else (False,)):
+                                    more = [(ty2, code, mid2, tok2, [(G.URI_PATH, p2)], b"")]
+                                    if ty3 is not None:
+                                        more.append((ty3, 1, 9, b"\x31", pa, b"x"))
+                                    out.append({"t": TA, "hact": "0/-/-/A", "req": (ty1, code, 7, b"\x31", pa, b""),
+                                                "more": more, "mcast": mc, "tags": ["sweep-async"],
+                                                "kind": "sweep-async"})
+    # the same sequences with handlers that answer at once (no async state: every datagram is served)
+    for ty1 in (0, 1):
+        for ty2 in (0, 1):
+            out.append({"t": TA, "hact": "69/-/68", "req": (ty1, 1, 7, b"\x31", pa, b""),
+                        "more": [(ty2, 1, 7, b"\x31", pa, b""), (ty2, 1, 8, b"\x31", pa, b"")],
+                        "mcast": False, "tags": ["sweep-async"], "kind": "sweep-async"})
+    # separator / escape bytes inside one Uri-Path or Uri-Query option against tables with
+    # multi-segment paths: "a/b" in ONE option is not the resource a/b
+    names = [b"a/b", b"a%2Fb", b"a", b"%41", b"A", b".", b"..", b"a/./b", b"a%25b", b"a%b", b"a/", b"/", b"%2F",
+             b"a/b/c", b"a%2Fb/c", b"x&y", b"x%26y"]
+    seglists = [[b"a/b"], [b"a", b"b"], [b"a%2Fb"], [b"%41"], [b"A"], [b"."], [b".."], [b"a", b".", b"b"],
+                [b"a%b"], [b"a%25b"], [b"a", b"b/"], [b"/"], [b"a/"], [b"", b"a"], [b"a", b""], [b"a/b", b"c"],
+                [b"a", b"b", b"c"], [b"a/b/c"], [b"%2F"], [b"x&y"], [b"x%26y"], [b"a/./b"]]
+    queries = [[], [b"x&y"], [b"x", b"y"], [b"x%26y"], [b"a/b?c"], [b"%"], [b""], [b"", b"x"], [b"x", b""]]
+    for k in range(0, len(names), 4):
+        t = {"mpr": 0, "known": [], "res": [(nm, 127, 0, 0) for nm in names[k:k + 4]], "unk": None, "prx": None}
+        for t2 in (t, dict(t, unk=(127, 0))):
+            for segs in seglists:
+                for q in queries:
+                    for ty in (0, 1):
+                        o = [(G.URI_PATH, x) for x in segs] + [(G.URI_QUERY, x) for x in q]
+                        add(t2, "69/-/68", (ty, 1, 3, b"\x05", o, b""), False, "sweep-path")
+    tall = {"mpr": 0, "known": [], "res": [(nm, 127, 0, 0) for nm in names], "unk": None, "prx": None}
+    for segs in seglists:
+        for code in (1, 2, 4):
+            add(tall, "69/-/68", (0, code, 3, b"\x05", [(G.URI_PATH, x) for x in segs], b""), False, "sweep-path")
     # single extra option number
     nums = list(range(0, 320)) + [2047, 2048, 2049, 2050, 2051, 65000, 65001, 65534, 65535]
     if tier == "thorough":
@@ -156,9 +219,16 @@ def sweeps(tier):
 
 
 def line_of(st):
-    ty, code, mid, token, opts, payload = st["req"]
-    return case_line(G.table_tokens(st["t"]), st["hact"], st["mcast"],
-                     G.serialize(ty, code, mid, token, opts, payload))
+    dgs = [G.serialize(*rq).hex() for rq in [st["req"]] + list(st.get("more", []))]
+    return " ".join(["c10"] + G.table_tokens(st["t"]) + [st["hact"], "m" if st["mcast"] else "u", "+".join(dgs)])
+
+
+class MultiAllowed(list):
+    """allowed sets of a case of several datagrams: list of (serve, impl, allowed) per datagram;
+    printed like the single form"""
+    def __init__(self, steps):
+        super().__init__([" | ".join("{" + " || ".join(sorted(set(a))) + "}" for _, _, a in steps)])
+        self.steps = steps
 
 
 class Runner:
@@ -172,10 +242,20 @@ class Runner:
         self.esc_ref = ref[0].strip()
         if not re.fullmatch(r"[0-9a-f]{64} [0-9a-f]{64}", self.esc):
             raise vlib.BuildError("c10esc: unexpected answer of the C driver: " + self.esc[:100])
+        # What the property needs of these tables ("the handler registered for that path"): the
+        # reconstruction must stay injective, so the separator and the escape character are
+        # never copied unescaped ('/' and '%' in a path segment, '&' and '%' in a query item).
+        # The model runs with the library's tables with exactly these bits forced; a library
+        # that leaves one of them unescaped then shows as a wrong resource / query (R).
+        tp, tq = [bytearray.fromhex(x) for x in self.esc.split()]
+        self.esc_lib_ok = all(not (t[c // 8] >> (c % 8)) & 1 for t, c in ((tp, 47), (tp, 37), (tq, 38), (tq, 37)))
+        for t, c in ((tp, 47), (tp, 37), (tq, 38), (tq, 37)):
+            t[c // 8] &= ~(1 << (c % 8)) & 0xff
+        self.esc_model = tp.hex() + " " + tq.hex()
 
     def run(self, lines):
         """-> list of (serve, impl, allowed list) canonicalised"""
-        setl = "c10esc " + self.esc
+        setl = "c10esc " + self.esc_model
         om, _ = vlib.run_lines_robust(self.model, [setl] + lines)
         om = om[1:]
         oc, crashes = vlib.run_lines_robust(self.drv, lines)
@@ -183,13 +263,21 @@ class Runner:
         oa = oa[1:]
         res = []
         for i in range(len(lines)):
-            al = [canon(x) for x in oa[i].split(" || ")]
-            res.append((canon(om[i]), canon(oc[i]), al))
+            if " | " in om[i] or " | " in oc[i]:
+                # several datagrams: per datagram (serve, impl, allowed set)
+                ms, cs, as_ = om[i].split(" | "), oc[i].split(" | "), oa[i].split(" | ")
+                steps = []
+                for k in range(len(ms)):
+                    steps.append((canon(ms[k]), canon(cs[k]) if k < len(cs) else "<missing>",
+                                  [canon(x) for x in (as_[k] if k < len(as_) else "").split(" || ")]))
+                res.append((canon(om[i]), canon(oc[i]), MultiAllowed(steps)))
+            else:
+                al = [canon(x) for x in oa[i].split(" || ")]
+                res.append((canon(om[i]), canon(oc[i]), al))
         return res, crashes
 
 
-def verdict(mo, co, al):
-    """'ok' | 'skip' | 'R' (implementation outside the relation) | 'F' (differs from dp_serve)"""
+def verdict1(mo, co, al):
     if mo == "MALFORMED":
         # the parser model (C03) rejects: the library may reset or ignore, never run a handler
         if co == "-" or re.fullmatch(r"TX\[t=3 c=0 m=\d+ k=- o=- p=-\]", co):
@@ -202,6 +290,28 @@ def verdict(mo, co, al):
     if mo != co:
         return "F"
     return "ok"
+
+
+def verdict(mo, co, al):
+    """'ok' | 'skip' | 'R' (implementation outside the relation) | 'F' (differs from dp_serve);
+    a case of several datagrams is judged datagram by datagram (up to the first that is outside
+    the model: the session state after it is unknown)"""
+    if not isinstance(al, MultiAllowed):
+        return verdict1(mo, co, al)
+    worst = "ok"
+    for m1, c1, a1 in al.steps:
+        v = verdict1(m1, c1, a1)
+        if v == "skip":
+            return worst if worst != "ok" else "skip"
+        if v == "R":
+            return "R"
+        if v == "F":
+            worst = "F"
+        if "TX[t=0 " in c1 or "TX[t=0 " in m1:
+            # a separate Confirmable response is now in flight on this session: whether the next
+            # one goes out at once is NSTART's business (C08), state this model does not carry
+            break
+    return worst
 
 
 def shrink(runner, st, want):
@@ -223,8 +333,11 @@ def shrink(runner, st, want):
             yield dict(s, t=dict(t, unk=None))
         if t["prx"] is not None:
             yield dict(s, t=dict(t, prx=None))
-        if s["hact"] != "69/-/-":
+        if s["hact"] != "69/-/-" and not s["hact"].endswith("/A"):
             yield dict(s, hact="69/-/-")
+        more = s.get("more", [])
+        for i in range(len(more)):
+            yield dict(s, more=more[:i] + more[i + 1:])
     cur = st
     for _ in range(40):
         cands = list(variants(cur))
@@ -261,6 +374,7 @@ def main(run):
     runner = Runner(model, drv)
     run.cov["escape_tables_from_library"] = runner.esc
     run.cov["escape_tables_equal_reference"] = runner.esc == runner.esc_ref
+    run.cov["escape_tables_keep_separators_escaped"] = runner.esc_lib_ok
     if getattr(run, "replay", None):
         # re-run the case lines of a replay file and report them again
         rl = []
